@@ -313,7 +313,7 @@ Print Assumptions C08_batch_coset_extrapolate.
 
 (* fast_modular_coset_interpolate, PARTIAL: the Lagrange regime (n < 2^8) and the INTT regime (2^8 <= n <= 2^17) return a
    polynomial congruent to the interpolant modulo the modulus, provided the preprocessing did not panic.  Not proved: the
-   even/odd recursion for n > 2^17 (C08_fmci_full below stays a Definition; the regime is exercised by the thorough tier
+   even/odd recursion for n > 2^17 (C08_fmci_first_statement_superseded below stays a Definition; the regime is exercised by the thorough tier
    of the correspondence check with 2^18-element codewords against the naive inverse-DFT + long-division spec). *)
 Theorem C08_fmci_small_partial :
   forall {F K} (o : fops F) (fk : fieldK K) (ok : F -> Prop) (den : F -> K), field_ok o fk ok den ->
@@ -329,7 +329,12 @@ Theorem C08_fmci_small_partial :
             forall ip, interpolates fk (coset_points fk wr (emb offset) l) (map den cw) ip -> congruent fk ip (map den m) (map den r).
 Proof. exact @fmci_small_spec. Qed.
 Print Assumptions C08_fmci_small_partial.
-Definition C08_fmci_full : Prop :=
+(* SUPERSEDED placeholders: the two Definitions below are the statements as first written down; they are NOT provable as
+   written (fmci: `red_exact` promises only a congruent polynomial where the recursion needs THE remainder; barycentric: no
+   hypothesis on the scalar lift the model calls).  The corrected statements are PROVED and pinned in props/C08b.v:
+   C08_fmci_spec, C08_bfe_fast_modular_coset_interpolate, C08_xfe_fast_modular_coset_interpolate, C08_barycentric_spec,
+   C08_barycentric_formula, C08_bfe_barycentric_evaluate, C08_xfe_barycentric_evaluate. *)
+Definition C08_fmci_first_statement_superseded : Prop :=
   forall (F K : Type) (o : fops F) (fk : fieldK K) (ok : F -> Prop) (den : F -> K), field_ok o fk ok den ->
   forall ntt intt bnd act lmax wr, mul_exact o fk ok den ntt intt bnd -> red_exact o fk ok den ntt intt ->
   ntt_ok fk ok den ntt lmax wr -> intt_ok fk ok den intt lmax wr -> roots_ok fk lmax wr ->
@@ -337,7 +342,7 @@ Definition C08_fmci_full : Prop :=
   rbnf_exact o fk ok den ntt intt ->
   forall dbg, fmci_exact o fk ok den ntt intt act lmax wr emb dbg.
 (* barycentric_evaluate: not proved (the barycentric formula for roots of unity); full statement, tied by correspondence *)
-Definition C08_barycentric_full : Prop :=
+Definition C08_barycentric_first_statement_superseded : Prop :=
   forall (F K : Type) (o : fops F) (fk : fieldK K) (ok : F -> Prop) (den : F -> K), field_ok o fk ok den ->
   forall act lmax wr emb, roots_ok fk lmax wr -> act_ok fk ok den act emb -> root_ok lmax wr emb ->
   forall l cw x, (l <= lmax)%nat -> Forall ok cw -> length cw = (2 ^ l)%nat -> ok x ->
